@@ -1,0 +1,194 @@
+//! Event pump / budget hooks (live_events.rs, budget.rs).
+use crate::budget::{Budget, BudgetBreach, BudgetEnforcer, BudgetReport, EnforcingPolicy};
+use crate::de::{AliasLimits, Ev, Events};
+use crate::live_events::LiveEvents;
+use crate::{Error, Location};
+use std::borrow::Cow;
+
+/// Logical event as delivered by `LiveEvents` to the deserializer.
+#[derive(Clone, Debug)]
+pub struct HookEv {
+    /// 0 scalar, 1 seq start, 2 seq end, 3 map start, 4 map end, 5 taken
+    pub kind: u8,
+    pub value: String,
+    pub borrowed: bool,
+    pub tag: u8,
+    pub raw_tag: Option<String>,
+    pub style: u8,
+    pub anchor: usize,
+    pub location: Location,
+    /// `reference_location()` observed after `peek()` and before `next()`.
+    pub reference_location: Location,
+}
+
+fn conv(ev: &Ev<'_>, reference_location: Location) -> HookEv {
+    let mut h = HookEv {
+        kind: 5,
+        value: String::new(),
+        borrowed: false,
+        tag: 0,
+        raw_tag: None,
+        style: 0,
+        anchor: 0,
+        location: ev.location(),
+        reference_location,
+    };
+    match ev {
+        Ev::Scalar {
+            value,
+            tag,
+            raw_tag,
+            style,
+            anchor,
+            ..
+        } => {
+            h.kind = 0;
+            h.value = value.to_string();
+            h.borrowed = matches!(value, Cow::Borrowed(_));
+            h.tag = super::scalars::tag_code(*tag);
+            h.raw_tag = raw_tag.as_ref().map(|t| t.to_string());
+            h.style = super::scalars::style_code(style);
+            h.anchor = *anchor;
+        }
+        Ev::SeqStart {
+            anchor,
+            tag,
+            raw_tag,
+            ..
+        } => {
+            h.kind = 1;
+            h.tag = super::scalars::tag_code(*tag);
+            h.raw_tag = raw_tag.as_ref().map(|t| t.to_string());
+            h.anchor = *anchor;
+        }
+        Ev::SeqEnd { .. } => h.kind = 2,
+        Ev::MapStart { anchor, .. } => {
+            h.kind = 3;
+            h.anchor = *anchor;
+        }
+        Ev::MapEnd { .. } => h.kind = 4,
+        Ev::Taken { .. } => h.kind = 5,
+    }
+    h
+}
+
+/// Outcome of draining a `LiveEvents` source.
+pub struct LiveDump {
+    pub events: Vec<HookEv>,
+    /// error returned by `peek`/`next`, if any (draining stops there)
+    pub error: Option<Error>,
+    /// result of `finish()` (only called when draining ended without error)
+    pub finish_error: Option<Error>,
+    pub seen_doc_end: bool,
+    pub synthesized_null: bool,
+    pub last_location: Location,
+}
+
+fn drain(mut live: LiveEvents<'_>, max_events: usize) -> LiveDump {
+    let mut events = Vec::new();
+    let mut error = None;
+    loop {
+        if events.len() >= max_events {
+            break;
+        }
+        match live.peek() {
+            Ok(Some(_)) => {}
+            Ok(None) => break,
+            Err(e) => {
+                error = Some(e);
+                break;
+            }
+        }
+        let r = live.reference_location();
+        match live.next() {
+            Ok(Some(ev)) => events.push(conv(&ev, r)),
+            Ok(None) => break,
+            Err(e) => {
+                error = Some(e);
+                break;
+            }
+        }
+    }
+    let finish_error = if error.is_none() {
+        live.finish().err()
+    } else {
+        None
+    };
+    LiveDump {
+        events,
+        error,
+        finish_error,
+        seen_doc_end: live.seen_doc_end(),
+        synthesized_null: live.synthesized_null_emitted(),
+        last_location: live.last_location(),
+    }
+}
+
+pub fn live_events_from_str(
+    input: &str,
+    budget: Option<Budget>,
+    alias_limits: AliasLimits,
+    stop_at_doc_end: bool,
+    max_events: usize,
+) -> LiveDump {
+    let live = LiveEvents::from_str(input, budget, None, None, alias_limits, stop_at_doc_end);
+    drain(live, max_events)
+}
+
+pub fn live_events_from_reader<R: std::io::Read>(
+    input: R,
+    budget: Option<Budget>,
+    alias_limits: AliasLimits,
+    stop_at_doc_end: bool,
+    per_document: bool,
+    max_events: usize,
+) -> LiveDump {
+    let policy = if per_document {
+        EnforcingPolicy::PerDocument
+    } else {
+        EnforcingPolicy::AllContent
+    };
+    let live = LiveEvents::from_reader(
+        input,
+        budget,
+        None,
+        None,
+        alias_limits,
+        stop_at_doc_end,
+        policy,
+    );
+    drain(live, max_events)
+}
+
+/// Result of feeding a sequence of raw parser events to a fresh `BudgetEnforcer`.
+pub struct BudgetRun {
+    /// index of the event at which `observe` returned a breach, with the breach
+    pub breach_at: Option<(usize, BudgetBreach)>,
+    /// `into_report()` after a breach, `finalize()` otherwise
+    pub report: BudgetReport,
+}
+
+pub fn budget_run(
+    budget: Budget,
+    per_document: bool,
+    events: &[saphyr_parser::Event<'_>],
+) -> BudgetRun {
+    let policy = if per_document {
+        EnforcingPolicy::PerDocument
+    } else {
+        EnforcingPolicy::AllContent
+    };
+    let mut enf = BudgetEnforcer::new(budget, policy);
+    for (i, ev) in events.iter().enumerate() {
+        if let Err(b) = enf.observe(ev) {
+            return BudgetRun {
+                breach_at: Some((i, b)),
+                report: enf.into_report(),
+            };
+        }
+    }
+    BudgetRun {
+        breach_at: None,
+        report: enf.finalize(),
+    }
+}
